@@ -179,6 +179,13 @@ func (rt *Transfer) receiveData(f *File, localFile *os.File) error {
 		rt.Logger.Printf("checksum %x matches!", localSum)
 	}
 
+	// Give the file its permissions before it becomes visible under its final
+	// name (like rsync does), not only afterwards: until setPerms() ran, other
+	// processes - e.g. a concurrent session to the same destination, which
+	// keeps "existing" permissions without -p - saw the 0600 of the temp file.
+	if err := out.Chmod(fs.FileMode(f.Mode) & os.ModePerm); err != nil {
+		return err
+	}
 	if err := out.CloseAtomicallyReplace(); err != nil {
 		return err
 	}
